@@ -21,11 +21,16 @@ pub mod c16engine;
 pub mod c17;
 pub mod c18;
 pub mod stack;
+pub mod apimode;
 
 pub fn dispatch(ctx: &mut Ctx) {
     // the full-stack swarm serves several properties; each run judges only its own
     if ctx.mode.as_deref() == Some("stack") {
         return stack::run(ctx);
+    }
+    // so does the single node driven through its client layer
+    if ctx.mode.as_deref() == Some("api") {
+        return apimode::run(ctx);
     }
     match ctx.prop.as_str() {
         "C01" => c01::run(ctx),
